@@ -188,6 +188,28 @@ def det_log(rng, sid, length):
     s.raw("G", ["digest"])
     return s
 
+def memory_limit_log(rng, sid):
+    """every node has the same memory limit (policy noeviction): a write is admitted or refused as a whole, on every node
+    alike — multi-key writes (MSET) that reach the limit part-way included"""
+    s = new_script(sid, "det")
+    s.cfg["maxmem"] = rng.choice([200, 300, 450, 700])
+    keys = ["k%d" % i for i in range(8)]
+    for _ in range(rng.randint(3, 9)):
+        r = rng.random()
+        db = rng.choice([0, 0, 1])
+        if r < 0.55:
+            ks = rng.sample(keys, rng.randint(2, 6))
+            argv = ["MSET"]
+            for k in ks: argv += [k, rng.choice(["v", "12", "x" * rng.randint(1, 40)])]
+            L(s, db, argv)
+        elif r < 0.75: L(s, db, ["SET", rng.choice(keys), "y" * rng.randint(1, 60)])
+        elif r < 0.85: L(s, db, ["DEL"] + rng.sample(keys, 2))
+        elif r < 0.93: L(s, db, ["RPUSH", "l", "a", "b"])
+        else: L(s, db, ["LMOVE", "l", "m", "LEFT", "RIGHT"])
+        if rng.random() < 0.3: s.raw("G", ["digest"])
+    s.raw("G", ["digest"])
+    return s
+
 def nondet_log(rng, sid, length):
     """no argument is repaired: randomised commands go into the log as they are (known finding); a command with a relative
     expiry is handed to the leader, which logs its absolute form: what still differs between nodes is a deadline that
@@ -292,6 +314,79 @@ def handle_log(rng, sid, length):
             s.raw("M", ["gossip"])
     s.raw("G", ["digest"])
     return s
+
+FWD_CMDS = [["RPUSH", "l", "x"], ["INCR", "n"], ["APPEND", "a", "z"], ["SADD", "s", "m"], ["RPUSH", "l", "y"], ["SET", "k", "v"], ["LPOP", "l"],
+            ["INCRBY", "n", "5"], ["HSET", "h", "f", "1"], ["DEL", "k"]]
+
+def forward_burst(rng, sid, nodes=2):
+    """writes handed to a follower with ForwardCommand, several per gossip round (the same command in two databases, the
+    same command twice, different commands), then the round(s), then the digests: every acknowledged write must reach the
+    leader — and be applied — exactly once, in the database it was sent to"""
+    leader = rng.randrange(nodes)
+    s = new_script(sid, "fwd", nodes=nodes, leader=leader, forward=1)
+    follower = rng.choice([i for i in range(nodes) if i != leader])
+    for _ in range(rng.randint(1, 4)):
+        burst = []
+        for _ in range(rng.randint(1, 4)):
+            r = rng.random()
+            if burst and r < 0.35: db, argv = rng.choice([d for d in (0, 1, 3) if d != burst[-1][0]]), burst[-1][1]     # same bytes, other database
+            elif burst and r < 0.45 and nodes > 2: db, argv = burst[-1]                                                 # same bytes, same database
+            else: db, argv = rng.choice([0, 1, 3]), rng.choice(FWD_CMDS)
+            # two nodes: the writes of one round name pairwise different (database, key) — a gossip round keeps neither the
+            # order of the writes nor two writes with the same bytes apart (recorded finding), so only commuting writes are
+            # judged strictly
+            if nodes == 2 and any(d == db and a[1] == argv[1] for d, a in burst): continue
+            burst.append((db, argv))
+            H(s, follower, db, argv)
+        for _ in range(1 if nodes == 2 else rng.randint(1, 3)):
+            s.raw("M", ["gossip"])
+        s.raw("G", ["digest"])
+    return s
+
+def fwd_reference(script):
+    """the same writes handed to the leader itself (applied once each, at once); no gossip"""
+    leader = int(script.cfg.get("leader", 0))
+    r = Script(script.id + "_ref", dict(script.cfg))
+    for l, e in zip(script.lines, script.events):
+        f = l.split()
+        if f[0] == "H": r.raw(" ".join(["H", str(leader)] + f[2:]), e)
+        elif f[0] == "M": continue
+        else: r.raw(l, e)
+    return r
+
+def fwd_verdict(script, impl_lines, ref_lines):
+    """exactly once: at every digest taken when no forwarded write is waiting for a gossip round, the nodes hold what the
+    leader holds when it is handed the same writes directly"""
+    gi, gr = blocks(impl_lines, "G"), blocks(ref_lines, "G")
+    if len(gi) != len(gr): return "digest blocks: implementation %d, reference %d" % (len(gi), len(gr))
+    settled, pending = [], False
+    for l in script.lines:
+        f = l.split()
+        if f[0] == "H": pending = True
+        elif f[0] == "M": pending = False
+        elif f[0] == "G": settled.append(not pending)
+    for k, (a, b) in enumerate(zip(gi, gr)):
+        if k < len(settled) and not settled[k]: continue
+        if len(set(norm_g("G " + x, True) for x in a)) > 1:
+            return "nodes hold different datasets after the gossip round: %s" % a
+        if norm_g("G " + a[0], True, False) != norm_g("G " + b[0], True, False):
+            return ("at digest %d (after the gossip round) the cluster holds %s; the acknowledged writes applied once each give %s"
+                    % (k, a[0], b[0]))
+    return None
+
+def fwd_in_trigger(script):
+    """three or more nodes, or two writes of one gossip round that name the same key of the same database"""
+    if script.cfg.get("kind") != "fwd": return False
+    if int(script.cfg.get("nodes", 2)) > 2: return True
+    seen = set()
+    for l in script.lines:
+        f = l.split()
+        if f[0] == "M": seen = set()
+        elif f[0] == "H":
+            key = (f[2], f[4] if len(f) > 4 else "")
+            if key in seen: return True
+            seen.add(key)
+    return False
 
 UNORDERED = PropertyCheck.UNORDERED | {"HGETALL"}
 
@@ -427,33 +522,45 @@ class C07(PropertyCheck):
         rng = self.rng
         out = {
             "det_logs": [det_log(rng, "d%d" % i, 30) for i in range(160 if q else 1500)],
+            "memory_limit": [memory_limit_log(rng, "m%d" % i) for i in range(40 if q else 500)],
             "nondet_logs": [nondet_log(rng, "n%d" % i, 20) for i in range(60 if q else 400)],
             "snapshot_then_suffix": [snapshot_log(rng, "s%d" % i, 24, False) for i in range(60 if q else 500)],
             "stale_snapshot": [snapshot_log(rng, "t%d" % i, 20, True) for i in range(30 if q else 200)],
             "batched": [batched_log(rng, "b%d" % i, 6) for i in range(60 if q else 600)],
             "two_step_snapshot": [two_step_snapshot(rng, "z%d" % i) for i in range(40 if q else 400)],
             "handle_command": [handle_log(rng, "h%d" % i, 10) for i in range(80 if q else 600)],
+            "forward_burst": [forward_burst(rng, "f%d" % i, 2) for i in range(40 if q else 500)] +
+                             [forward_burst(rng, "g%d" % i, 3) for i in range(8 if q else 60)],
         }
         return out
 
     def evaluate(self, scripts):
         impl = run_impl07(scripts, self.per_script_timeout())
         model = run_model07(scripts)
+        refs = {s.id: fwd_reference(s) for s in scripts if s.cfg.get("kind") == "fwd"}
+        refout = run_model07(list(refs.values())) if refs else {}
         div, rej = [], []
         for s in scripts:
             a = impl.get(s.id, ["<no output>"]); b = model.get(s.id, ["<no output>"])
             d = compare07(s, a, b)
             if d: div.append((s, d))
             r = oracle07(s, a)
+            if not r and s.id in refs:
+                r = fwd_verdict(s, a, refout.get(refs[s.id].id, ["<no output>"]))
             if r: rej.append((s, r))
         return impl, model, div, rej
 
     def oracle_report(self, c):
         im = run_impl07([c], self.per_script_timeout())
         v = oracle07(c, im.get(c.id, ["<no output>"]))
+        if not v and c.cfg.get("kind") == "fwd":
+            ref = fwd_reference(c)
+            v = fwd_verdict(c, im.get(c.id, ["<no output>"]), run_model07([ref]).get(ref.id, ["<no output>"]))
         return {"impl_trace": im.get(c.id), "verdict": v} if v else None
 
     def in_known_trigger(self, script):
+        if fwd_in_trigger(script):
+            return "KF-C07-forwarding-not-exactly-once"
         if script.cfg.get("kind") != "nondet":
             return None
         rnd = clock = False
@@ -473,6 +580,9 @@ class C07(PropertyCheck):
             return True
         s = script_from_json(w["script"])
         im = run_impl07([s], 2.0)
+        if s.cfg.get("kind") == "fwd":
+            ref = fwd_reference(s)
+            return bool(fwd_verdict(s, im.get(s.id, ["<no output>"]), run_model07([ref]).get(ref.id, ["<no output>"])))
         return bool(oracle07(s, im.get(s.id, ["<no output>"])))
 
     def nontrivial(self, script, impl_lines):
